@@ -48,7 +48,9 @@ CLAIMS = {
         engine="cli", design_ref="DESIGN.md section 4 C09",
         technique="Coq: footprint/frame theorem by induction over the run + associativity of max over a total preorder (generic, and instantiated in binary64 through Flocq); determinism is definitional in the model and tied to the code by bit-exact replay in rayon pools and across processes (partial)",
         text="Theorems: a run writes only the parameter cells its handles point to, so optimising a clone (fresh cells) leaves the "
-             "original and every other replica untouched (any number of steps, any oracle); std::cmp::max is associative on a total "
+             "original and every other replica untouched (any number of steps, any oracle); a run depends on the shared heap only "
+             "through the replica's own cells (C09_run_local), so for EVERY interleaving of the atomic steps of two replicas over "
+             "one heap each ends exactly as in isolation (C09_interleaving_does_not_matter); std::cmp::max is associative on a total "
              "preorder and every reduction tree over the index-ordered results returns the sequential result - also in binary64: the "
              "order of defined non-NaN scores is total and transitive (Flocq), Ord::max (`if other < self`) is max2 for it and "
              "never panics.  The states' partial_cmp / == / max (both bracketings) are compared with that model and with the order "
@@ -148,7 +150,8 @@ CLAIMS = {
              "point); all tests are symmetric in their arguments.  Completeness for polygons (C12_convex_overlap_detected): two closed "
              "convex polygons with a common interior point, neither with all vertices strictly inside the other, have an edge pair "
              "meeting transversally within both parameter ranges, so the test says yes (degenerate vertex-on-edge contacts included).  "
-             "Rigid-motion invariance follows for these exact answers but is not a separate theorem - and in binary64 completeness "
+             "Invariance (C12_shape_intersects_rigid_invariant): every shape test gives the same answer after one common rigid motion "
+             "or reflection; the segment/polygon test even after any invertible affine map.  In binary64 completeness "
              "and invariance fail at exactly aligned configurations: known findings D12 "
              "(collinear disjoint edges reported as intersecting) and D13 (copies displaced along an edge direction reported "
              "as not intersecting after a common rigid motion), found by this check's pair stream and classified by the harness.",
